@@ -160,8 +160,11 @@ class C10(ValueCheck):
         d1 = B(res[1])
         self.cls("diff")
         # (2) absent symbol
-        zero_ok = (["Integer", "0"], ["RealDouble", "0x0p+0"], ["RealDouble", "-0x0p+0"], ["ComplexDouble", "0x0p+0", "0x0p+0"])
-        if not is_exc(res[5]) and B(res[5]) not in (zero_ok if on.has_float(rec) else zero_ok[:1]):
+        def is_zero_dump(d):
+            if d == ["Integer", "0"]:
+                return True
+            return on.has_float(rec) and d[0] in ("RealDouble", "ComplexDouble") and all(p in ("0x0p+0", "-0x0p+0") for p in d[1:])
+        if not is_exc(res[5]) and not is_zero_dump(B(res[5])):
             raise Violation("%s: diff w.r.t. a symbol that does not occur returned %s, not 0" % (desc, B(res[5])), {"recipe": rec})
         # (3) cache
         if res[3] is False and "nan" not in str(res[1]):
@@ -225,7 +228,7 @@ def m_acosh_derivative_branch(case, v):
 def m_constant_at_singular_rule(case, v):
     """KF-C10-02: the chain rule multiplies the outer rule by the inner derivative 0; where the outer rule is singular
     (acosh(-1), acsch(I), asin(1) ...) 0*zoo gives nan instead of 0"""
-    return "does not occur returned ['NaN']" in v.msg
+    return "does not occur returned" in v.msg and "['NaN']" in v.msg
 
 
 C10.matchers = {"acosh_derivative_branch": m_acosh_derivative_branch,
